@@ -134,12 +134,13 @@ structure Mono (b b' : B) : Prop where
   heapLen : b.heap.length ≤ b'.heap.length
   deref : ∀ r x, x ∈ b.deref r → x ∈ b'.deref r
   head : ∀ x, b.head = some x → b'.head = some x
+  nodes : ∀ x, x ∈ b.nodes → x ∈ b'.nodes
 
-theorem Mono.refl (b : B) : Mono b b := ⟨id, fun _ h => h, Nat.le_refl _, fun _ _ h => h, fun _ h => h⟩
+theorem Mono.refl (b : B) : Mono b b := ⟨id, fun _ h => h, Nat.le_refl _, fun _ _ h => h, fun _ h => h, fun _ h => h⟩
 
 theorem Mono.trans {a b c : B} (h1 : Mono a b) (h2 : Mono b c) : Mono a c :=
   ⟨fun h => h1.err (h2.err h), fun e h => h2.edges e (h1.edges e h), Nat.le_trans h1.heapLen h2.heapLen,
-   fun r x h => h2.deref r x (h1.deref r x h), fun x h => h2.head x (h1.head x h)⟩
+   fun r x h => h2.deref r x (h1.deref r x h), fun x h => h2.head x (h1.head x h), fun x h => h2.nodes x (h1.nodes x h)⟩
 
 /-- All set references held by the builder point into the heap. -/
 structure Valid (b : B) : Prop where
@@ -203,7 +204,7 @@ theorem err_fail (b : B) (msg : String) (h : (b.fail msg).err = none) : False :=
   cases hb : b.err <;> simp [hb, Option.or] at h
 
 theorem mono_fail (b : B) (msg : String) : Mono b (b.fail msg) :=
-  ⟨fun h => (err_fail b msg h).elim, fun _ h => h, Nat.le_refl _, fun _ _ h => h, fun _ h => h⟩
+  ⟨fun h => (err_fail b msg h).elim, fun _ h => h, Nat.le_refl _, fun _ _ h => h, fun _ h => h, fun _ h => h⟩
 
 theorem frame_fail (K) (b : B) (msg : String) : Frame K b (b.fail msg) :=
   Frame.of_mono (mono_fail b msg) rfl rfl rfl rfl rfl rfl (fun v => v.leaves)
@@ -215,26 +216,26 @@ theorem frame_check (K) (b : B) (c : Bool) (msg : String) : Frame K b (b.check c
 
 /-- the trivially monotone steps -/
 theorem mono_same (b b' : B) (h1 : b'.err = b.err) (h2 : b'.edges = b.edges) (h3 : b'.heap = b.heap)
-    (h4 : ∀ x, b.head = some x → b'.head = some x) : Mono b b' :=
+    (h4 : ∀ x, b.head = some x → b'.head = some x) (h5 : ∀ x, x ∈ b.nodes → x ∈ b'.nodes := by exact fun _ h => h) : Mono b b' :=
   ⟨fun h => by rw [← h1]; exact h, fun e h => by rw [h2]; exact h, by rw [h3]; exact Nat.le_refl _,
-   fun r x h => by simpa [deref, h3] using h, h4⟩
+   fun r x h => by simpa [deref, h3] using h, h4, h5⟩
 
 theorem frame_connect (K) (b : B) (first : List Nat) (second : Nat) : Frame K b (b.connect first second) :=
-  Frame.of_mono ⟨id, fun e h => List.mem_append.mpr (Or.inl h), Nat.le_refl _, fun _ _ h => h, fun _ h => h⟩ rfl rfl rfl rfl rfl rfl (fun v => v.leaves)
+  Frame.of_mono ⟨id, fun e h => List.mem_append.mpr (Or.inl h), Nat.le_refl _, fun _ _ h => h, fun _ h => h, fun _ h => h⟩ rfl rfl rfl rfl rfl rfl (fun v => v.leaves)
 
 theorem frame_setLeavesFresh (K) (b : B) (s : List Nat) : Frame K b (b.setLeavesFresh s) :=
-  Frame.of_mono ⟨id, fun _ h => h, by simp [setLeavesFresh], fun r x h => deref_setLeavesFresh b s r x h, fun _ h => h⟩ rfl rfl rfl rfl rfl rfl
+  Frame.of_mono ⟨id, fun _ h => h, by simp [setLeavesFresh], fun r x h => deref_setLeavesFresh b s r x h, fun _ h => h, fun _ h => h⟩ rfl rfl rfl rfl rfl rfl
     (fun _ => by simp [setLeavesFresh])
 
 theorem frame_leavesUnion (K) (b : B) (s : List Nat) : Frame K b (b.leavesUnion s) :=
-  Frame.of_mono ⟨id, fun _ h => h, by simp [leavesUnion], fun r x h => deref_leavesUnion_mono b s r x h, fun _ h => h⟩ rfl rfl rfl rfl rfl rfl
+  Frame.of_mono ⟨id, fun _ h => h, by simp [leavesUnion], fun r x h => deref_leavesUnion_mono b s r x h, fun _ h => h, fun _ h => h⟩ rfl rfl rfl rfl rfl rfl
     (fun v => by simpa [leavesUnion] using v.leaves)
 
 theorem frame_setLeavesRef (K) (b : B) (r : Nat) (hr : Valid b → r < b.heap.length) : Frame K b (b.setLeavesRef r) :=
   Frame.of_mono (mono_same _ _ rfl rfl rfl (fun _ h => h)) rfl rfl rfl rfl rfl rfl hr
 
 theorem frame_pushNode (K) (b : B) (n : Nat) : Frame K b (b.pushNode n) :=
-  Frame.of_mono (mono_same _ _ rfl rfl rfl (fun x h => by simp [pushNode, h, Option.or])) rfl rfl rfl rfl rfl rfl (fun v => v.leaves)
+  Frame.of_mono (mono_same _ _ rfl rfl rfl (fun x h => by simp [pushNode, h, Option.or]) (fun x h => List.mem_append.mpr (Or.inl h))) rfl rfl rfl rfl rfl rfl (fun v => v.leaves)
 
 theorem frame_putFinallySections (K) (b : B) (n : Nat) (gs : List Nat) : Frame K b (b.putFinallySections n gs) :=
   Frame.of_mono (mono_same _ _ rfl rfl rfl (fun _ h => h)) rfl rfl rfl rfl rfl rfl (fun v => v.leaves)
